@@ -95,7 +95,7 @@ PROPS = {
     },
     "C03": {
         "suites": ["kdf", "xcrypt"],
-        "fail_kinds": ["their-hash-rejected", "our-hash-rejected", "their-mismatch-accepted", "no-reference"],
+        "fail_kinds": ["their-hash-rejected", "our-hash-rejected", "their-mismatch-accepted", "no-reference", "differs-from-spec", "key-panic", "crash"],
         "level": "proof",
         "technique": "Lean 4 proof (code-shaped KDF skeleton = reference written from the published algorithm, for all inputs and all hash functions; loop closed forms by induction) + Go/Lean key correspondence on all ten schemes",
         "claim": "Kernel-checked for ALL passwords, salts, round counts (and ALL hash functions where the scheme has one): every scheme's code-shaped model equals a reference written from the published algorithm — md5-crypt (PHK), SHA-crypt (Drepper), sha1-crypt (iterated HMAC), Sun MD5 (coin-toss rounds), NT hash (MD4 of UTF-16LE), bcrypt (EksBlowfish with the per-prefix key rules), DES-crypt and BSDi (salted DES iterated 25 / n times, key folding) — and the table-driven DES of des/descrypt, whose tables are regenerated from const.go on every run, equals FIPS 46-3 DES with the crypt(3) salt swap for every 64-bit key and block (C03b.encrypt_eq_fips). Final permutation tables are permutations; the digest encoding = the bit-level base64 spec (C16). Go is tied to the models key for key (kdf suite) and to the system's libxcrypt in both directions (xcrypt suite).",
